@@ -124,6 +124,9 @@ def build(j, w):
     if k == "fn":
         return FN[j["f"]](build(j["a"], w))
     if k == "op":
+        if j["name"] == "transpose":           # sympde.calculus.matrices.Transpose (symmetric gradients, elasticity)
+            from sympde.calculus.matrices import Transpose
+            return Transpose(*[build(a, w) for a in j["a"]])
         op = getattr(calc, j["name"])
         return op(*[build(a, w) for a in j["a"]])
     if k == "d":
@@ -164,6 +167,9 @@ def ser_tree(e):
     for cls, name in ops.items():
         if type(e) is cls:
             return {"k": "op", "name": name, "a": [ser_tree(a) for a in e.args]}
+    from sympde.calculus.matrices import Transpose
+    if type(e) is Transpose:
+        return {"k": "op", "name": "transpose", "a": [ser_tree(e.arg)]}
     if isinstance(e, Add):
         return {"k": "add", "a": [ser_tree(a) for a in e.args]}
     if isinstance(e, Mul):
@@ -434,6 +440,12 @@ class Explicit:
             if d == 2:
                 return a[0] * b[1] - a[1] * b[0]
             return Matrix([a[1] * b[2] - a[2] * b[1], a[2] * b[0] - a[0] * b[2], a[0] * b[1] - a[1] * b[0]])
+        from sympde.calculus.matrices import Transpose
+        if t is Transpose:
+            a = self.classical(e.arg)
+            if not isinstance(a, Matrix):
+                raise ser.Unsupported("classical: transpose of a scalar")
+            return a.T
         raise ser.Unsupported("classical: %s" % type(e).__name__)
 
     # ---- the implementation's output with its atoms made explicit (function of Xh)
